@@ -462,6 +462,18 @@ WorkerHandle(s, c, pa) ==
 P_C07_Worker == \A c \in Cmds : \A pa \in {"ok", "err"} :
                   LET h == WorkerHandle(st, c, pa) IN h.res = "err" => h.st = st
 
+\* Main-process level (bin/src/command/requests.rs::worker_request). The main process applies the command to its
+\* own state first and then fans it out; what the workers answer (`fa`: "err" as soon as one of them refuses,
+\* stays silent past the time-out or dies) is the client's final answer. The property wants a failure answer to
+\* leave the main process's configuration as it was. The code keeps the change: there is no roll-back (deviation
+\* MasterKeepsRefused, an open finding; the composed behaviour is modelled in Sozu.tla).
+MasterHandle(s, c, fa) ==
+  LET d == Dispatch(s, c) IN
+  [res |-> IF d.res = "err" THEN "err" ELSE fa,
+   st |-> IF d.res = "ok" /\ fa = "err" /\ "MasterKeepsRefused" \notin Deviations THEN s ELSE d.st]
+P_C07_Master == \A c \in Cmds : \A fa \in {"ok", "err"} :
+                  LET h == MasterHandle(st, c, fa) IN h.res = "err" => h.st = st
+
 ---------------------------------------------------------------------------
 (* Behaviours *)
 
